@@ -53,7 +53,7 @@ theorem NP_benign : Benign NP := ⟨fun _ _ => rfl, fun _ => rfl, fun _ _ _ => r
 
 theorem ctxFor_outs (w : W) (h v : Nat) : (ctxFor w h v).1.outs = w.outs := rfl
 
-theorem cancelMeanwhile_outs (w : W) (c : Bool) : (cancelMeanwhile w c).outs = w.outs := by
+theorem cancelMeanwhile_outs (w : W) (c : Option Nat) : (cancelMeanwhile w c).outs = w.outs := by
   unfold cancelMeanwhile; split <;> rfl
 
 theorem initView_appends' {P} (hP : Benign P) (w : W) (v : Nat) : Appends P w (initView w v).1 := by
